@@ -37,8 +37,9 @@ UA = ["u/", "U/", "u/x", "v/", "V/", "v", "", "w#", "W#", "u/X"]
 
 def rrec(rng):
     p, u = rng.choice(PA), rng.choice(UA)
-    ps = tuple(sorted({q for q in rng.sample(PA, k=rng.randint(0, 2)) if q != p}))
-    us = tuple(sorted({q for q in rng.sample(UA, k=rng.randint(0, 2)) if q != u}))
+    # synonyms in the order drawn, not sorted: the order of a record's lists is part of the record
+    ps = tuple(q for q in rng.sample(PA, k=rng.randint(0, 2)) if q != p)
+    us = tuple(q for q in rng.sample(UA, k=rng.randint(0, 2)) if q != u)
     return spec.Rec(p, u, ps, us, rng.choice([None, None, "^\\d+$", "x"]))
 
 
